@@ -160,6 +160,21 @@ def run(ctx):
                 ctx.hist("traversal", trav or "default")
                 check_case(ctx, snap, scratch, roots, mind, maxd, trav, t)
             common.rm_tree(snap.root)
+        # the root directory `/` as search root (implementation against os.listdir; the model's snapshot never holds `/`,
+        # the model side of this case is the theorem root_slash_child_level): level 1 is what is directly inside `/`
+        for trav in ("", "bfs", "dfs"):
+            for q, want in (("select path from / depth 1 %s into list" % trav, {"/" + n for n in os.listdir("/")}),
+                            ("select path from / mindepth 2 maxdepth 2 %s where path like '/etc/%%' into list" % trav,
+                             {"/etc/" + n for n in os.listdir("/etc")}),
+                            ("select path from / mindepth 1 maxdepth 2 %s where path like '/etc%%' into list" % trav,
+                             {"/etc"} | {"/etc/" + n for n in os.listdir("/etc")} | {"/" + n for n in os.listdir("/") if n.startswith("etc")})):
+                ctx.case(("root-slash", q))
+                ctx.count("root_slash_queries")
+                res = common.run_cli([q], cwd=scratch, scratch=scratch, timeout=60)
+                got = [x.decode("utf-8", "replace") for x in res["out"].split(b"\0")[:-1]]
+                if sorted(got) != sorted(want):
+                    ctx.oracle_fail("under the root `/` the depth window is off", {"argv": [q], "cwd": "/"},
+                                    detail={"missing": sorted(want - set(got))[:5], "extra": sorted(set(got) - want)[:5], "rows": len(got)})
         # a very deep tree: the clauses hold at every level, however deep (no level is special)
         for t in range(1 if quick else 4):
             r = ctx.rng.fork()
